@@ -1,6 +1,7 @@
 import PcVerif.Ops.Caption
 import PcVerif.Spec.TextDecode
 import PcVerif.Model.XmlText
+import PcVerif.Model.World
 namespace PcVerif.Ops
 open Proto TextW
 
@@ -34,5 +35,17 @@ open Proto
 def xmlTextOps : List (String × Handler) := [
   ("xml.leaf", fun a => match a with | [s] => encOpt encStr (XmlText.leafText (decStr s)) | _ => "bad-args"),
   ("py.splitws", fun a => match a with | [s] => encStrs (XmlText.splitWs (decStr s)) | _ => "bad-args")
+]
+end PcVerif.Ops
+
+namespace PcVerif.Ops
+open Proto World
+def worldOps : List (String × Handler) := [
+  ("world.flag", fun a => match a with
+    | [k, st, doc] =>
+      let w := if k = "dfxp" then SpanWriter.dfxp else if k = "legacy" then SpanWriter.legacy else SpanWriter.sami
+      let caps := if doc = "[]" then [] else (doc.splitOn "|").map decNodes
+      encBool (writeDoc w (decBool st) caps).2
+    | _ => "bad-args")
 ]
 end PcVerif.Ops
